@@ -1,4 +1,135 @@
-import BipVerif.Model.Substrate
+/-
+C19 — Substrate: the path parser and printer are mutually inverse, junction chain codes are the
+32-byte values the Substrate convention prescribes, derivation composes along paths, public-only
+nodes refuse hard junctions, and addresses are SS58.
+Property theorems only; proofs in `BipVerif/Lemmas/Substrate.lean`.  sr25519 is an oracle table;
+the only fact assumed about it is the explicit hypothesis `Sr25519SoftComm`.
+-/
+import BipVerif.Lemmas.Substrate
+
 namespace BipVerif.Props.C19
-theorem placeholder : True := trivial
+open BipVerif BipVerif.Prim BipVerif.Model BipVerif.Model.SubstrateLemmas
+
+/-! ### 1. parser / printer -/
+
+/-- for junctions with non-empty, slash-free texts -/
+theorem parse_print (p : List SubElem) (hp : ∀ e ∈ p, e.text ≠ [] ∧ '/' ∉ e.text) :
+    subParsePath (subPrintPath p) = .ok p :=
+  SubstrateLemmas.parse_print p hp
+
+/-- accepted strings are printed forms (and the parsed junctions are non-empty and slash-free) -/
+theorem print_parse (s : List Char) (p : List SubElem) (h : subParsePath s = .ok p) :
+    subPrintPath p = s ∧ ∀ e ∈ p, e.text ≠ [] ∧ '/' ∉ e.text :=
+  SubstrateLemmas.print_parse s p h
+
+theorem parse_ok_iff (s : List Char) (p : List SubElem) :
+    subParsePath s = .ok p ↔ subPrintPath p = s ∧ ∀ e ∈ p, e.text ≠ [] ∧ '/' ∉ e.text :=
+  SubstrateLemmas.parse_ok_iff s p
+
+theorem parse_error_kind (s : List Char) (e : Err) (h : subParsePath s = .error e) : e = .path :=
+  SubstrateLemmas.parse_error_kind s e h
+
+/-- a path element string: one or two slashes are accepted, three or more are refused -/
+theorem elem_slash_count (n : Nat) (body : List Char) (hn : 1 ≤ n) (hb : body ≠ []) (hs : '/' ∉ body) :
+    subElemOf (List.replicate n '/' ++ body) =
+      if n ≤ 2 then .ok { text := body, hard := decide (n ≥ 2) } else .error .path :=
+  subElemOf_shape n body hn hb hs
+
+/-! ### 2–4. chain codes -/
+
+theorem chainCode_length (e : SubElem) (cc : Bytes) (h : subChainCode e = .ok cc) : cc.length = 32 :=
+  SubstrateLemmas.chainCode_length e cc h
+
+theorem numeric_cc_width_independent (e : SubElem) (v : Nat) (hp : parseDecimal e.text = some v)
+    (hv : v < 2 ^ 256) : subChainCode e = .ok (Bytes.ofNatLE 32 v) :=
+  SubstrateLemmas.numeric_cc_width_independent e v hp hv
+
+theorem numeric_too_large_refused (e : SubElem) (v : Nat) (hp : parseDecimal e.text = some v)
+    (hv : 2 ^ 256 ≤ v) : subChainCode e = .error .path :=
+  SubstrateLemmas.numeric_too_large_refused e v hp hv
+
+/-- non-decimal text with UTF-8 bytes `b`: `compact(|b|) ‖ b` zero-padded to 32 bytes when
+`compactLen + |b| ≤ 32`, else its BLAKE2b-256 -/
+theorem text_cc_spec (e : SubElem) (hp : parseDecimal e.text = none) :
+    subChainCode e =
+      (scaleCompact (String.ofList e.text).toUTF8.toList.length >>= fun c =>
+        .ok (if c.length + (String.ofList e.text).toUTF8.toList.length ≤ 32
+             then c ++ (String.ofList e.text).toUTF8.toList ++
+               List.replicate (32 - (c.length + (String.ofList e.text).toUTF8.toList.length)) 0
+             else blake2b256 (c ++ (String.ofList e.text).toUTF8.toList))) :=
+  SubstrateLemmas.text_cc_spec e hp
+
+theorem text_cc_short (e : SubElem) (hp : parseDecimal e.text = none)
+    (hl : (String.ofList e.text).toUTF8.toList.length ≤ 31) :
+    subChainCode e =
+      .ok (UInt8.ofNat (4 * (String.ofList e.text).toUTF8.toList.length) ::
+        (String.ofList e.text).toUTF8.toList ++
+          List.replicate (31 - (String.ofList e.text).toUTF8.toList.length) 0) :=
+  SubstrateLemmas.text_cc_short e hp hl
+
+theorem text_cc_long (e : SubElem) (hp : parseDecimal e.text = none)
+    (hl : 32 ≤ (String.ofList e.text).toUTF8.toList.length) (c : Bytes)
+    (hc : scaleCompact (String.ofList e.text).toUTF8.toList.length = .ok c) :
+    subChainCode e = .ok (blake2b256 (c ++ (String.ofList e.text).toUTF8.toList)) :=
+  SubstrateLemmas.text_cc_long e hp hl c hc
+
+theorem chainCode_error_kinds (e : SubElem) (err : Err) (h : subChainCode e = .error err) :
+    (err = .path ∧ ∃ v, parseDecimal e.text = some v ∧ 2 ^ 256 ≤ v) ∨
+    (err = .value ∧ parseDecimal e.text = none ∧ 2 ^ 536 ≤ (String.ofList e.text).toUTF8.toList.length) :=
+  chainCode_error e err h
+
+/-! ### 5. derivation -/
+
+theorem derive_append (o : Oracle) (nd : SubNode) (p q : List SubElem) :
+    subDerivePath o nd (p ++ q) = subDerivePath o nd p >>= fun x => subDerivePath o x q :=
+  SubstrateLemmas.derive_append o nd p q
+
+theorem hard_refused_on_public (o : Oracle) (nd : SubNode) (e : SubElem) (hp : nd.priv = none)
+    (hh : e.hard = true) : subChildKey o nd e = .error .key :=
+  SubstrateLemmas.hard_refused_on_public o nd e hp hh
+
+theorem soft_public_uses_public_oracle (o : Oracle) (nd : SubNode) (e : SubElem) (hp : nd.priv = none)
+    (hh : e.hard = false) :
+    subChildKey o nd e =
+      subChainCode e >>= fun cc => askOr o "sr_softpub" (cc ++ nd.pub) >>= fun r =>
+        .ok { priv := none, pub := r, path := nd.path ++ [e] } :=
+  SubstrateLemmas.soft_public_uses_public_oracle o nd e hp hh
+
+/-- under the oracle hypothesis, private soft derivation followed by neutering equals public soft
+derivation of the neutered node (same public key, same recorded path) -/
+theorem soft_comm (o : Oracle)
+    (ho : ∀ cc pub priv r, o.ask "sr_soft" (cc ++ pub ++ priv) = some r →
+      o.ask "sr_softpub" (cc ++ pub) = some (r.take 32))
+    (nd c : SubNode) (e : SubElem) (priv : Bytes)
+    (hp : nd.priv = some priv) (hh : e.hard = false) (h : subChildKey o nd e = .ok c) :
+    subChildKey o { nd with priv := none } e = .ok { c with priv := none } :=
+  SubstrateLemmas.soft_comm o ho nd c e priv hp hh h
+
+theorem soft_comm_path (o : Oracle)
+    (ho : ∀ cc pub priv r, o.ask "sr_soft" (cc ++ pub ++ priv) = some r →
+      o.ask "sr_softpub" (cc ++ pub) = some (r.take 32))
+    (p : List SubElem) (hsoft : ∀ e ∈ p, e.hard = false) (nd c : SubNode) (priv : Bytes)
+    (hp : nd.priv = some priv) (h : subDerivePath o nd p = .ok c) :
+    subDerivePath o { nd with priv := none } p = .ok { c with priv := none } :=
+  SubstrateLemmas.soft_comm_path o ho p hsoft nd c priv hp h
+
+theorem derive_records_path (o : Oracle) (p : List SubElem) (nd c : SubNode)
+    (h : subDerivePath o nd p = .ok c) : c.path = nd.path ++ p :=
+  derive_path o p nd c h
+
+/-! ### 6. addresses -/
+
+theorem address_is_ss58 (fmt : Nat) (nd : SubNode) :
+    subAddress fmt nd = ss58Encode blake2b512 nd.pub fmt := rfl
+
+theorem address_decodes (fmt : Nat) (nd : SubNode) (hl : nd.pub.length = 32) (hf : fmt ≤ 16383)
+    (h46 : fmt ≠ 46) (h47 : fmt ≠ 47) :
+    (subAddress fmt nd >>= ss58Decode blake2b512) = .ok (fmt, nd.pub) :=
+  SubstrateLemmas.address_decodes fmt nd hl hf h46 h47
+
+theorem address_refused (fmt : Nat) (nd : SubNode)
+    (h : nd.pub.length ≠ 32 ∨ 16383 < fmt ∨ fmt = 46 ∨ fmt = 47) :
+    subAddress fmt nd = .error .value :=
+  address_errors fmt nd h
+
 end BipVerif.Props.C19
